@@ -9,3 +9,4 @@ import Dm.Props.C16
 #print axioms Dm.Props.C16.closure_params_taken_whole
 #print axioms Dm.Props.C16.binary_or_swallows_comma
 #print axioms Dm.Props.C16.cast_to_generic_type_is_split
+#print axioms Dm.Props.C16.lt_and_gt_global_path_is_one_argument
